@@ -1,12 +1,40 @@
 /-
-  Line-protocol handlers for C16.  `handle` receives the tokens after the property id.
+  Line-protocol handlers for C16 (elitism keeps the best, monotone best fitness).
 -/
 import GEVerif.Model.Sexp
+import GEVerif.Model.Steps
+import GEVerif.Model.StepsWire
 
 namespace GEVerif.Drive.C16
-open GEVerif Sexp
+open GEVerif GEVerif.Steps Sexp StepsWire
+
+def bestAggOf (xs : List Ind) : Sexp :=
+  match maxByAgg xs with
+  | some b => ofInt b.agg
+  | none => atom "none"
 
 def handle : List Sexp → Option Sexp
+  | [atom "elitism", form, pop, k] => do
+      let pop ← parsePop pop
+      match apply scripted ⟨0⟩ .elitism (← parseForm pop form) (← k.asNat?) (mkSt [] []) with
+      | some (out, _) => pure (ofIds out)
+      | none => pure err
+  | [atom "sort", pop] => do
+      pure (ofIds (sortDesc (← parsePop pop)))
+  -- best aggregate of every generation of a whole modelled run
+  | [atom "gp_best", step, size, gens, pop, ints, floats, nComps] => do
+      match gpGenerations scripted ⟨← nComps.asNat?⟩ (← parseStep step) (← size.asNat?) (← gens.asNat?) (← parsePop pop)
+          (mkSt (← ints.asNats?) (← floats.asNats?)) with
+      | some (gs, _) => pure (list (gs.map bestAggOf))
+      | none => pure err
+  -- predicates on implementation output
+  | [atom "prop_topk", pop, k, out] => do
+      pure (ofBool (topkOk (← parsePop pop) (← k.asNat?) (← parsePop out)))
+  | [atom "prop_monotone", bests] => do
+      pure (ofBool (chainLe (← bests.asInts?)))
+  | [atom "prop_direction", minimize, v, agg] => do
+      let v ← v.asInt?
+      pure (ofBool ((← agg.asInt?) == (if (← minimize.asBool?) then -v else v)))
   | _ => none
 
 end GEVerif.Drive.C16
